@@ -228,7 +228,7 @@ func c09ReaderCases(c *ev.Ctx) []rcase {
 }
 
 func checkC09(c *ev.Ctx) {
-	c.SetRule("fault = I/O failure at the boundary. Writers (xz multi-block and multi-chunk, .lzma with plain and io.ByteWriter sinks in three termination modes, LZMA2 with flushes): a dry run records the K sink Write calls of the history NewWriter, Write*, [Flush], Close, Close; then every k in [0,K) x {fail once, fail forever} x {no bytes, partial write} is replayed (byte-writer sinks: every k < 3000, then every 61st). Readers (xz, xz SingleStream, .lzma, LZMA2; plain and io.ByteReader sources): every source offset k in [0,len] x {once, forever} x {error in its own Read result, error together with the last data bytes}. distinct non-trivial = distinct (case, fault position, fault mode) executions in which the fault actually fired")
+	c.SetRule("fault = I/O failure at the boundary. Writers (xz multi-block and multi-chunk, .lzma with plain and io.ByteWriter sinks in three termination modes, LZMA2 with flushes): a dry run records the K sink Write calls of the history NewWriter, Write*, [Flush], Close, Close; then every k in [0,K) x {fail once, fail forever} x {no bytes, partial write, all bytes accepted and the error returned with the full count} is replayed (byte-writer sinks: every k < 3000, then every 61st). Readers (xz, xz SingleStream, .lzma, LZMA2; plain and io.ByteReader sources): every source offset k in [0,len] x {once, forever} x {error in its own Read result, error together with the last data bytes}. distinct non-trivial = distinct (case, fault position, fault mode) executions in which the fault actually fired")
 	c.Assume("the injected error is mon.ErrInjected; reader oracle uses errors.Is; the driver stops at the first error like io.ReadAll")
 	wcases := c09WriterCases(c)
 	rcases := c09ReaderCases(c)
@@ -238,6 +238,7 @@ func checkC09(c *ev.Ctx) {
 		k        int
 		forever  bool
 		partial  bool
+		full     bool // the failing sink call accepts all bytes and returns the error with the full count
 		withData bool
 		stdErr   bool // the source fails with io.ErrUnexpectedEOF itself (as a cut HTTP body does)
 	}
@@ -268,6 +269,9 @@ func checkC09(c *ev.Ctx) {
 				}
 				jobs = append(jobs, job{w: w, k: k, forever: m&1 == 1, partial: m&2 == 2})
 			}
+			if w.Kind != "lzma-bytesink" {
+				jobs = append(jobs, job{w: w, k: k, full: true}, job{w: w, k: k, full: true, forever: true})
+			}
 		}
 	}
 	for i := range rcases {
@@ -293,14 +297,17 @@ func checkC09(c *ev.Ctx) {
 		if j.w != nil {
 			w := j.w
 			id := fmt.Sprintf("%s@%d:%v:%v", w.ID, j.k, j.forever, j.partial)
+			if j.full {
+				id += ":full"
+			}
 			noteCase(id)
 			if !want(c, id) {
 				return
 			}
 			sink := mon.NewSink()
-			sink.FailAt, sink.Forever, sink.Partial = j.k, j.forever, j.partial
+			sink.FailAt, sink.Forever, sink.Partial, sink.Full = j.k, j.forever, j.partial, j.full
 			res := w.run(sink)
-			det := map[string]any{"case_id": id, "kind": w.Kind, "features": w.Feat, "fail_at_call": j.k, "forever": j.forever, "partial": j.partial,
+			det := map[string]any{"case_id": id, "kind": w.Kind, "features": w.Feat, "fail_at_call": j.k, "forever": j.forever, "partial": j.partial, "all_bytes_accepted_with_the_error": j.full,
 				"calls": tail(res.calls, 12), "fault_hits": sink.Hit, "input_len": len(w.Data), "sink_len": len(sink.Buf)}
 			if sink.Hit == 0 {
 				c.Count("writer_fault_not_reached", 1)
